@@ -89,7 +89,9 @@ def assumptions(pid):
     out_vo = os.path.join(BUILD, 'recheck', 'Properties_%s.vo' % pid)
     t0 = time.time()
     rc, out = sh(['timeout', '1200', 'coqc', '-Q', 'theories', 'Cstl', f, '-o', out_vo], cwd=COQ, timeout=1300)
-    # split output into blocks, one per Print Assumptions, in order
+    # split output into blocks, one per Print Assumptions, in order.  Inside an
+    # "Axioms:" block every line that starts in column 0 names an axiom (Coq wraps a
+    # long type onto indented continuation lines, possibly leaving the name alone).
     blocks = []
     cur = None
     for line in out.splitlines():
@@ -99,8 +101,11 @@ def assumptions(pid):
         elif line.startswith('Axioms:'):
             cur = [line]
             blocks.append(cur)
-        elif cur is not None and (line.startswith(' ') or line.strip() == '' or ':' in line):
-            cur.append(line)
+        elif cur is not None:
+            if line.startswith('File ') or line.startswith('Error') or line.startswith('Warning'):
+                cur = None
+            else:
+                cur.append(line)
     blocks = [b if isinstance(b, str) else '\n'.join(b) for b in blocks]
     res = []
     discharged = 0
@@ -115,7 +120,7 @@ def assumptions(pid):
         if b.startswith('Closed'):
             discharged += 1
             continue
-        axs = re.findall(r'^([A-Za-z_][\w\.]*)\s*:', b, flags=re.M)
+        axs = re.findall(r"^([A-Za-z_][\w\.']*)", b, flags=re.M)
         axs = [a for a in axs if a != 'Axioms']
         if axs and all(a in ALLOWED_AXIOMS for a in axs):
             discharged += 1
